@@ -222,7 +222,7 @@ let eval (op : string) (a : string list) : string =
   | "co", [asked; th; cl; ctrl; bs; ts; oth; oerr; ots] ->
     let md = metadata_map (pmd th cl ctrl bs ts) in
     (match consumer_offsets_request (str_of asked) md with
-     | None -> "PANIC"
+     | None -> "NOTOPIC"
      | Some (t, ids) ->
        (match consumer_offsets_result md (offsetfetch_map (pof oth oerr ots)) with
         | None -> "PANIC"
